@@ -62,6 +62,7 @@ def run(chk: Check) -> None:
     chk.floor("R17.5", "decoders of nodes with children", register_before_children(chk, "R17.5"), 3)
     _validation(chk)
     _no_swallow(chk)
+    _messages_cannot_fail(chk)
     # "can be saved again": every loaded table keeps its bytes and type (C14's loader half)
     # what save writes is loadable: modules go out in list order (references point backwards)
     from .c02 import _facts as _c02_facts, _whole_collections
@@ -478,3 +479,54 @@ def _no_swallow(chk: Check) -> None:
     chk.extra["handlers_in_readers"] = n
     # the lazy AuxData decode is outside load(); Serialization.decode's UnknownCodecError handler
     # is C14's concern.
+
+
+def _messages_cannot_fail(chk: Check) -> None:
+    """the rejection of a bad file must reach the caller as the documented exception: the text of
+    the message is built with a *literal* format string.  A format string computed from data of
+    the file (a name, a type name) raises TypeError / ValueError itself when that data contains
+    a '%' or a brace."""
+    n = 0
+    for f in chk.repo.all_functions():
+        if not (_is_reader(f) or f.name in ("load_protobuf", "load_protobuf_file")):
+            continue
+        al = local_aliases(f.node)
+
+        def literal(e: ast.AST, depth: int = 0) -> bool:
+            if isinstance(e, ast.Constant) and isinstance(e.value, str):
+                return True
+            if isinstance(e, ast.Name) and e.id in al and depth < 4:
+                return literal(al[e.id], depth + 1)
+            if isinstance(e, ast.BinOp) and isinstance(e.op, ast.Add):
+                return literal(e.left, depth + 1) and literal(e.right, depth + 1)
+            if isinstance(e, ast.JoinedStr):
+                return False
+            return False
+        for r in walk_no_nested(f.node):
+            if not isinstance(r, ast.Raise) or r.exc is None:
+                continue
+            roots: List[ast.AST] = [r.exc]
+            # a message built in a local first
+            for x in ast.walk(r.exc):
+                if isinstance(x, ast.Name) and x.id in al:
+                    roots.append(al[x.id])
+            for root in roots:
+                for x in ast.walk(root):
+                    bad = None
+                    if isinstance(x, ast.BinOp) and isinstance(x.op, ast.Mod):
+                        n += 1
+                        if not literal(x.left):
+                            bad = x
+                    elif isinstance(x, ast.Call) and isinstance(x.func, ast.Attribute) and x.func.attr == "format":
+                        n += 1
+                        if not literal(x.func.value):
+                            bad = x
+                    if bad is not None or isinstance(x, (ast.BinOp, ast.Call)) and (
+                            isinstance(x, ast.BinOp) and isinstance(x.op, ast.Mod) or
+                            isinstance(x, ast.Call) and isinstance(x.func, ast.Attribute) and x.func.attr == "format"):
+                        chk.ob("R17.7", "%s:literal-format(%s)" % (f.qualname, unparse(x)[:30]), bad is None, f.loc(x),
+                               "%s builds an error message with a format string that is not a literal (%s): data "
+                               "of the file containing a format directive makes the formatting itself fail, and "
+                               "the caller gets TypeError / ValueError / KeyError instead of the rejection"
+                               % (f.qualname, unparse(x.left if isinstance(x, ast.BinOp) else x.func.value)[:60]), 2)
+    chk.extra["formatted_messages_in_readers"] = n
